@@ -29,9 +29,10 @@ class WorkerDied(BaseException):
 
 
 class Scheduler:
-    def __init__(self, preempt: dict[int, int] | None = None, trace_files: tuple[str, ...] = (), record: bool = False, max_steps: int = 200000) -> None:
+    def __init__(self, preempt: dict[int, int] | None = None, trace_files: tuple[str, ...] = (), record: bool = False, max_steps: int = 200000, only_funcs: dict[str, set[str]] | None = None) -> None:
         self.preempt = dict(preempt or {})
         self.targets = set(trace_files)
+        self.only_funcs = only_funcs or {}  # file -> function names to trace (default: all)
         self.record = record
         self.max_steps = max_steps
         self.th: dict[str, dict[str, Any]] = {}
@@ -99,7 +100,9 @@ class Scheduler:
     # ---- tracing --------------------------------------------------------------------------
     def _tracer(self, frame: Any, event: str, arg: Any) -> Any:
         if event == "call" and frame.f_code.co_filename in self.targets:
-            return self._local
+            only = self.only_funcs.get(frame.f_code.co_filename)
+            if only is None or frame.f_code.co_name in only:
+                return self._local
         return None
 
     def _local(self, frame: Any, event: str, arg: Any) -> Any:
